@@ -8,11 +8,19 @@ use parry3d_f64::query::{IntersectResult, PointProjection, PointQueryWithLocatio
 use parry3d_f64::shape::TrianglePointLocation;
 use std::f64::consts::PI;
 
+/// The `solid` flag handed to parry's point projections. It acts on the single triangles, which in
+/// 3D have no interior: its one effect there is that a face without area (collinear or repeated
+/// vertices) reports every query that projects between its ends as lying inside it, and the query
+/// comes back as its own closest point. Whether a point is inside a solid mesh is decided from
+/// the pseudo-normals, independently of this flag, so the faces are always projected onto as
+/// surfaces.
+const SOLID_FACES: bool = false;
+
 impl Mesh {
     pub fn surf_closest_to(&self, point: &Point3) -> SurfacePoint3 {
         let result = self
             .shape
-            .project_local_point_and_get_location(point, self.is_solid);
+            .project_local_point_and_get_location(point, SOLID_FACES);
         let (projection, (tri_id, _location)) = result;
         let triangle = self.shape.triangle(tri_id);
         // A face without area (collinear or repeated vertices) has no normal of its own: the
@@ -27,7 +35,7 @@ impl Mesh {
     pub fn point_closest_to(&self, point: &Point3) -> Point3 {
         let (result, _) = self
             .shape
-            .project_local_point_and_get_location(point, self.is_solid);
+            .project_local_point_and_get_location(point, SOLID_FACES);
         result.point
     }
 
@@ -37,7 +45,7 @@ impl Mesh {
         max_dist: f64,
     ) -> Option<(PointProjection, u32, TrianglePointLocation)> {
         self.shape
-            .project_local_point_and_get_location_with_max_dist(point, self.is_solid, max_dist)
+            .project_local_point_and_get_location_with_max_dist(point, SOLID_FACES, max_dist)
             .map(|(prj, (id, loc))| (prj, id, loc))
     }
 
@@ -76,7 +84,7 @@ impl Mesh {
 
         let result = self
             .shape
-            .project_local_point_and_get_location_with_max_dist(&point, self.is_solid, max_dist);
+            .project_local_point_and_get_location_with_max_dist(&point, SOLID_FACES, max_dist);
         if let Some((prj, (id, loc))) = result {
             let local = point - prj.point;
             let triangle = self.shape.triangle(id);
